@@ -782,6 +782,8 @@ class PhaseField(_IModel):
 
             # Eigenvalue calculations [e,pg]
             delta = tr_e_pg**2 - (4 * det_e_pg)
+            # delta = (a - d)**2 + 4 * b**2 >= 0, round-off can make it slightly negative
+            delta[delta < 0] = 0
 
             eigs_e_pg = FeArray.zeros(Ne, nPg, 2)
             eigs_e_pg[:, :, 0] = (tr_e_pg - np.sqrt(delta)) / 2
@@ -816,10 +818,14 @@ class PhaseField(_IModel):
 
             tic.Tac("Split", "Invariants", False)
 
+            # g = I1² - 3 I2 = 3/2 ||dev(matrix)||² >= 0, round-off can make it slightly negative
             g_e_pg = I1_e_pg**2 - 3 * I2_e_pg
+            g_e_pg[g_e_pg < 0] = 0
             sqrt_g_e_pg = np.sqrt(g_e_pg)
 
-            g_neq_0 = g_e_pg != 0
+            # g is considered null relative to the squared norm of the tensor
+            normSq_e_pg = Trace(matrix_e_pg @ matrix_e_pg)
+            g_neq_0 = np.asarray(g_e_pg > 1e-12 * normSq_e_pg)
 
             arg = 1 / 2 * (2 * I1_e_pg**3 - 9 * I1_e_pg * I2_e_pg + 27 * I3_e_pg)
             np.divide(
@@ -828,29 +834,38 @@ class PhaseField(_IModel):
                 out=arg,
                 where=g_neq_0,
             )
+            # round-off can push arg outside [-1, 1] when two eigenvalues coincide
+            arg = np.clip(arg, -1, 1)
 
             # Lode's angle such that 0 <= theta <= pi/3
-            theta = 1 / 3 * np.arccos(arg)
+            theta = np.asarray(1 / 3 * np.arccos(arg))
+            # arccos loses half of the digits near -1 and 1
+            tol_theta = 1e-6
+
+            # the cases below are selected for each gauss point with boolean masks (Ne, nPg),
+            # plain numpy arrays are used since a masked FeArray loses its (Ne, nPg) axes
+            mat_e_pg = np.asarray(matrix_e_pg)
+            I1 = np.asarray(I1_e_pg)
+            sqrt_g = np.asarray(sqrt_g_e_pg)
+            eye3 = np.eye(3)
 
             # -------------------------------------
             # Init eigenvalues an eigenprojectors for case 4
             # 𝜖1 = 𝜖2 = 𝜖3 ⇐⇒ 𝑔 = 0.
             # -------------------------------------
-            val1_e_pg = I1_e_pg / 3
-            val2_e_pg = I1_e_pg / 3
-            val3_e_pg = I1_e_pg / 3
+            val1_e_pg = I1 / 3
+            val2_e_pg = I1 / 3
+            val3_e_pg = I1 / 3
 
             # Init proj matrices
-            M1 = FeArray.zeros(*matrix_e_pg.shape)
+            M1 = np.zeros(mat_e_pg.shape)
             M1[..., 0, 0] = 1
-            # M2 = FeArray.zeros(*matrix_e_pg.shape)
+            # M2 = np.zeros(mat_e_pg.shape)
             # M2[..., 1, 1] = 1
-            M3 = FeArray.zeros(*matrix_e_pg.shape)
+            M3 = np.zeros(mat_e_pg.shape)
             M3[..., 2, 2] = 1
 
             tic.Tac("Split", "proj case 4", False)
-
-            I_rg = 1 / 3 * ((I1_e_pg - sqrt_g_e_pg) * I_e_pg)
 
             # -------------------------------------
             # 2. Two maximum eigenvalues
@@ -858,18 +873,19 @@ class PhaseField(_IModel):
             # arg = -1
             # -------------------------------------
 
-            test2 = g_neq_0 & (theta == np.pi / 3)
+            case2 = g_neq_0 & (theta >= np.pi / 3 - tol_theta)
 
-            case2 = np.unique(np.where(test2)[0])
+            if case2.any():
+                sqrt_g_c2 = sqrt_g[case2]
+                val1_e_pg[case2] += -2 / 3 * sqrt_g_c2
+                val2_e_pg[case2] += 1 / 3 * sqrt_g_c2
+                val3_e_pg[case2] += 1 / 3 * sqrt_g_c2
 
-            if len(case2) > 0:
-                val1_e_pg[case2] += -2 / 3 * sqrt_g_e_pg[case2]
-                val2_e_pg[case2] += 1 / 3 * sqrt_g_e_pg[case2]
-                val3_e_pg[case2] += 1 / 3 * sqrt_g_e_pg[case2]
-
-                M1[case2] = (g_e_pg ** (-1 / 2) * (I_rg - matrix_e_pg))[case2]
-                # M2[case2] = 1 / 2 * (I_e_pg - M1)[case2]
-                M3[case2] = 1 / 2 * (I_e_pg - M1)[case2]
+                # 𝜖2 = 𝜖3 = (I1 + sqrt(g)) / 3 and M1 = (𝜖2 I - matrix) / (𝜖2 - 𝜖1)
+                I_rg_c2 = ((I1[case2] + sqrt_g_c2) / 3)[:, np.newaxis, np.newaxis] * eye3
+                M1[case2] = (I_rg_c2 - mat_e_pg[case2]) / sqrt_g_c2[:, np.newaxis, np.newaxis]
+                # M2[case2] = 1 / 2 * (eye3 - M1[case2])
+                M3[case2] = 1 / 2 * (eye3 - M1[case2])
 
                 tic.Tac("Split", "proj case 2", False)
 
@@ -879,18 +895,18 @@ class PhaseField(_IModel):
             # arg = 1
             # -------------------------------------
 
-            test3 = g_neq_0 & (theta == 0)
+            case3 = g_neq_0 & (theta <= tol_theta)
 
-            case3 = np.unique(np.where(test3)[0])
+            if case3.any():
+                sqrt_g_c3 = sqrt_g[case3]
+                val1_e_pg[case3] += -1 / 3 * sqrt_g_c3
+                val2_e_pg[case3] += -1 / 3 * sqrt_g_c3
+                val3_e_pg[case3] += 2 / 3 * sqrt_g_c3
 
-            if len(case3) > 0:
-                val1_e_pg[case3] += -1 / 3 * sqrt_g_e_pg[case3]
-                val2_e_pg[case3] += -1 / 3 * sqrt_g_e_pg[case3]
-                val3_e_pg[case3] += 2 / 3 * sqrt_g_e_pg[case3]
-
-                M3[case3] = (g_e_pg ** (-1 / 2) * (matrix_e_pg - I_rg))[case3]
-                M1[case3] = 1 / 2 * (I_e_pg - M3)[case3]
-                # M2[case3] = 1 / 2 * (I_e_pg - M3)[case3]
+                I_rg_c3 = ((I1[case3] - sqrt_g_c3) / 3)[:, np.newaxis, np.newaxis] * eye3
+                M3[case3] = (mat_e_pg[case3] - I_rg_c3) / sqrt_g_c3[:, np.newaxis, np.newaxis]
+                M1[case3] = 1 / 2 * (eye3 - M3[case3])
+                # M2[case3] = 1 / 2 * (eye3 - M3[case3])
 
                 tic.Tac("Split", "proj case 3", False)
 
@@ -899,39 +915,37 @@ class PhaseField(_IModel):
             # 𝜖1 < 𝜖2 < 𝜖3 ⇐⇒ 𝑔 ≠ 0, 𝜃 ≠ 0, 𝜃 ≠ 𝜋∕3.
             # -------------------------------------
 
-            test1 = g_neq_0 & (theta != 0) & (theta != np.pi / 3)
+            case1 = g_neq_0 & ~case2 & ~case3
 
-            case1 = np.setdiff1d(
-                np.unique(np.where(test1)[0]), np.union1d(case2, case3)
-            )
+            if case1.any():
+                theta_c1 = theta[case1]
+                sqrt_g_c1 = sqrt_g[case1]
 
-            if len(case1) > 0:
-                val1_e_pg[case1] += (
-                    2 / 3 * (sqrt_g_e_pg * np.cos(2 * np.pi / 3 + theta))[case1]
-                )
-                val2_e_pg[case1] += (
-                    2 / 3 * (sqrt_g_e_pg * np.cos(2 * np.pi / 3 - theta))[case1]
-                )
-                val3_e_pg[case1] += 2 / 3 * (sqrt_g_e_pg * np.cos(theta))[case1]
+                val1_e_pg[case1] += 2 / 3 * sqrt_g_c1 * np.cos(2 * np.pi / 3 + theta_c1)
+                val2_e_pg[case1] += 2 / 3 * sqrt_g_c1 * np.cos(2 * np.pi / 3 - theta_c1)
+                val3_e_pg[case1] += 2 / 3 * sqrt_g_c1 * np.cos(theta_c1)
 
                 # Compute projectors only on the case1 subset — avoids full-(Ne,nPg) matmuls
-                v1_c1 = val1_e_pg[case1]
-                v2_c1 = val2_e_pg[case1]
-                v3_c1 = val3_e_pg[case1]
-                mat_c1 = matrix_e_pg[case1]
+                v1_c1 = val1_e_pg[case1][:, np.newaxis, np.newaxis]
+                v2_c1 = val2_e_pg[case1][:, np.newaxis, np.newaxis]
+                v3_c1 = val3_e_pg[case1][:, np.newaxis, np.newaxis]
+                mat_c1 = mat_e_pg[case1]
 
                 M1[case1] = (
-                    (mat_c1 - v2_c1 * np.eye(3))
-                    @ (mat_c1 - v3_c1 * np.eye(3))
+                    (mat_c1 - v2_c1 * eye3)
+                    @ (mat_c1 - v3_c1 * eye3)
                     / ((v1_c1 - v2_c1) * (v1_c1 - v3_c1))
                 )
                 M3[case1] = (
-                    (mat_c1 - v1_c1 * np.eye(3))
-                    @ (mat_c1 - v2_c1 * np.eye(3))
+                    (mat_c1 - v1_c1 * eye3)
+                    @ (mat_c1 - v2_c1 * eye3)
                     / ((v3_c1 - v1_c1) * (v3_c1 - v2_c1))
                 )
 
                 tic.Tac("Split", "proj case 1", False)
+
+            M1 = FeArray.asfearray(M1)
+            M3 = FeArray.asfearray(M3)
 
             # -------------------------------------
             # merge values in eigs_e_pg
